@@ -95,6 +95,8 @@ def coerce(v, ty: Ty):
             for it in v.items:
                 t = z3.Store(t, coerce(it, ty.elem).term, True)
             return Val(t, ty)
+        if isinstance(ty, MapT) and not v.items:
+            return Val(ty.empty(), ty)         # {} / dict()
         raise Unsupported(f"list literal where {ty} expected")
     if not isinstance(v, Val):
         raise Unsupported(f"cannot coerce {v!r} to {ty}")
